@@ -8,6 +8,7 @@ import (
 	"os"
 	"os/exec"
 	"path/filepath"
+	"regexp"
 	"sort"
 	"strings"
 	"sync"
@@ -211,9 +212,9 @@ var NoBoundaryRewrite bool
 // into the operating system redirected to the harness stubs (the engine does
 // the same redirection by callee name).
 var boundaryFiles = map[string][]string{
-	"root":                 {"seccomp_linux.go"},
-	"cmd/sandbox":          {"main.go"},
-	"cmd/seccomp-profiler": {"main.go"},
+	"root":                        {"seccomp_linux.go"},
+	"cmd/sandbox":                 {"main.go"},
+	"cmd/seccomp-profiler":        {"main.go"},
 	"cmd/seccomp-profiler/disasm": {"disasm.go"},
 }
 
@@ -341,8 +342,18 @@ func RewriteBoundary(dir, src string) string {
 		if strings.HasSuffix(path, ".v2") && len(f) == 1 {
 			name = "yaml"
 		}
-		rest := strings.Join(lines[i+1:], "\n")
-		if !strings.Contains(rest, name+".") {
+		used := false
+		re := regexp.MustCompile(`(^|[^A-Za-z0-9_.])` + regexp.QuoteMeta(name) + `\.[A-Za-z_]`)
+		for _, rl := range lines[i+1:] {
+			if k := strings.Index(rl, "//"); k >= 0 {
+				rl = rl[:k]
+			}
+			if re.MatchString(rl) {
+				used = true
+				break
+			}
+		}
+		if !used {
 			lines[i] = "\t_ \"" + path + "\""
 		}
 	}
@@ -454,17 +465,17 @@ func (s *Session) NewWorker() (*Worker, error) {
 func (w *Worker) Close() { w.Pool.Close() }
 
 type Job struct {
-	ID       string                 `json:"id"`
-	Property string                 `json:"property"`
-	Pkg      string                 `json:"pkg"`
-	Harness  string                 `json:"harness"`
-	Params   map[string]interface{} `json:"params"`
-	MapOrder string                 `json:"map_order,omitempty"`
-	Values   map[string]uint64      `json:"-"` // nondet names fixed to concrete values (selftest)
-	Weight   int                    `json:"-"` // scheduling hint: heavier jobs start first
-	Race     bool                   `json:"race,omitempty"` // native replay under the race detector
-	Open     []string               `json:"-"`
-	CoverModels bool                `json:"-"`
+	ID          string                 `json:"id"`
+	Property    string                 `json:"property"`
+	Pkg         string                 `json:"pkg"`
+	Harness     string                 `json:"harness"`
+	Params      map[string]interface{} `json:"params"`
+	MapOrder    string                 `json:"map_order,omitempty"`
+	Values      map[string]uint64      `json:"-"`              // nondet names fixed to concrete values (selftest)
+	Weight      int                    `json:"-"`              // scheduling hint: heavier jobs start first
+	Race        bool                   `json:"race,omitempty"` // native replay under the race detector
+	Open        []string               `json:"-"`
+	CoverModels bool                   `json:"-"`
 }
 
 type JobResult struct {
@@ -636,12 +647,12 @@ type ProcStats struct {
 }
 
 type SolverStats struct {
-	By           map[string]*ProcStats
-	Decided      int
-	CrossChecked int
-	DecidedByOne int
-	Inconclusive int
-	Fallbacks    int
+	By            map[string]*ProcStats
+	Decided       int
+	CrossChecked  int
+	DecidedByOne  int
+	Inconclusive  int
+	Fallbacks     int
 	StringQueries int
 	StringS       float64
 }
